@@ -397,6 +397,17 @@ func init() {
 			s.preemptSync = true
 			return nil, true
 		},
+		rtPkg + "Expect": func(e *Engine, s *State, f *Frame, fn *ssa.Function, args []Value, retIdx int, advance bool) (Value, bool) {
+			if e.expected == nil {
+				e.expected = map[string]bool{}
+			}
+			for _, t := range strings.Split(e.tagOf(args[0]), ",") {
+				if t = strings.TrimSpace(t); t != "" {
+					e.expected[t] = true
+				}
+			}
+			return nil, true
+		},
 		rtPkg + "NoTimers": func(e *Engine, s *State, f *Frame, fn *ssa.Function, args []Value, retIdx int, advance bool) (Value, bool) {
 			s.noTimers = true
 			return nil, true
@@ -932,16 +943,42 @@ func errorsIs(e *Engine, s *State, f *Frame, fn *ssa.Function, args []Value, ret
 		}
 		pt, ok := cur.T.(*types.Pointer)
 		if !ok {
-			return e.c.False, true
+			return errorsIsGeneric(e, s, f, cur, target, retIdx, advance)
 		}
 		nt, ok := pt.Elem().(*types.Named)
 		if !ok || nt.Obj().Pkg() == nil || nt.Obj().Pkg().Path() != "fmt" || nt.Obj().Name() != "wrapError" {
-			return e.c.False, true
+			return errorsIsGeneric(e, s, f, cur, target, retIdx, advance)
 		}
 		inner := e.load(s, cur.V.(*Pointer)).(*StructV).Fields[1].(*IfaceV)
 		cur = inner
 	}
 	return e.c.False, true
+}
+
+// errorsIsGeneric: an error type with its own Unwrap / Is method (e.g. a fake *net.OpError-like timeout that unwraps to
+// os.ErrDeadlineExceeded): continue with the real errors.is from the standard library (pure Go once the comparability
+// of the target — the only reflective step of errors.Is — is supplied).
+func errorsIsGeneric(e *Engine, s *State, f *Frame, cur, target *IfaceV, retIdx int, advance bool) (Value, bool) {
+	if cur.T == nil {
+		return e.c.Bool(target.T == nil), true
+	}
+	ms := e.prog.MethodSets.MethodSet(cur.T)
+	has := false
+	for i := 0; i < ms.Len(); i++ {
+		if n := ms.At(i).Obj().Name(); n == "Unwrap" || n == "Is" {
+			has = true
+		}
+	}
+	if !has {
+		return e.c.False, true
+	}
+	fn := e.findFunc("errors.is")
+	if fn == nil {
+		e.errf("errors.is not found")
+	}
+	cmp := e.c.Bool(target.T != nil && types.Comparable(target.T))
+	e.pushCall(s, f, &FuncV{Fn: fn}, []Value{cur, target, cmp}, retIdx, advance)
+	return tailCall, true
 }
 
 // freshObjIntrinsic: the function returns a pointer to a fresh zero value of its result's element type.
